@@ -278,41 +278,7 @@ def run(ctx):
             ctx.violation("verify-operands", role + "/missing", "no enforced verification of %s found in the client" % role)
 
     # ------------------------------------------------------------------ (3) merkle / midpoint comparisons
-    checks = {}  # name -> list of (fnpath, bb)
-    for fn in P.fns.values():
-        if not fn.path.startswith(CLIENT):
-            continue
-        e = W.ev(fn.path)
-        div = fn.diverging()
-        selft = ("param", fn.path, 1)
-        for bl in fn.blocks:
-            if bl.idx not in fn.reachable():
-                continue
-            t = bl.term
-            if t["k"] != "switch":
-                continue
-            cond = e.op(t["op"], (bl.idx, "term"))
-            for succ in fn.succ(bl.idx):
-                if succ in div:
-                    continue
-                # facts on the surviving edge(s)
-                efs = flow.edge_facts(fn, e).get((bl.idx, succ), ())
-                others_diverge = all(s in div for s in fn.succ(bl.idx) if s != succ)
-                if not others_diverge:
-                    continue
-                for f in efs:
-                    for rel in flow.relational(f):
-                        op, a, b = rel
-                        if op not in ("Eq", "Le", "Lt"):
-                            continue
-                        a, b = W.expand(a), W.expand(b)
-                        a2 = W.subst_fields(a, selft, fields) if fn.impl_self == HANDLER else a
-                        b2 = W.subst_fields(b, selft, fields) if fn.impl_self == HANDLER else b
-                        # parameters of helper methods: bind from unique caller
-                        a2, b2 = bind_from_callers(ctx, W, fn, a2, b2, fields)
-                        name = classify(W, op, a2, b2, NEW)
-                        if name:
-                            checks.setdefault(name[0], []).append((fn.path, bl.idx, name[1]))
+    checks = enforced_comparisons(ctx, W, fields, NEW)
     need = ["merkle", "mint<=midp", "midp<=maxt"]
     for n in need:
         if n not in checks:
@@ -482,6 +448,70 @@ def bind_from_callers(ctx, W, fn, a, b, fields):
     return a, b
 
 
+def enforced_comparisons(ctx, W, fields=None, NEW=None):
+    """Comparisons the client enforces (the other edge diverges): name -> [(fn path, block, info)].  Names: 'merkle', 'mint<=midp', 'midp<=maxt';
+    for the two window comparisons info is 'strict' when the code demands `<` where the protocol says `<=` (stricter: still safe, but refuses honest replies)."""
+    P = ctx.prog
+    if fields is None:
+        ctors = W.ctor_fields(HANDLER)
+        if len(ctors) != 1:
+            raise AnchorMissing("exactly one construction of ResponseHandler (found %d)" % len(ctors))
+        cfn, cbb, cidx, fields = ctors[0]
+        NEW = cfn.path
+    checks = {}  # name -> list of (fnpath, bb)
+    for fn in P.fns.values():
+        if not fn.path.startswith(CLIENT):
+            continue
+        e = W.ev(fn.path)
+        div = fn.diverging()
+        selft = ("param", fn.path, 1)
+        for bl in fn.blocks:
+            if bl.idx not in fn.reachable():
+                continue
+            t = bl.term
+            if t["k"] != "switch":
+                continue
+            cond = e.op(t["op"], (bl.idx, "term"))
+            for succ in fn.succ(bl.idx):
+                if succ in div:
+                    continue
+                # facts on the surviving edge(s)
+                efs = flow.edge_facts(fn, e).get((bl.idx, succ), ())
+                others_diverge = all(s in div for s in fn.succ(bl.idx) if s != succ)
+                if not others_diverge:
+                    continue
+                for f in efs:
+                    for rel in flow.relational(f):
+                        op, a, b = rel
+                        if op == "True" and is_call(a) and callee_name(a[1]) == "contains" and len(a[2]) == 2:
+                            # (lo..hi).contains(&x) / (lo..=hi).contains(&x)
+                            rng = W.expand(a[2][0])
+                            while isinstance(rng, tuple) and rng and rng[0] == "reader":
+                                rng = rng[1]
+                            if isinstance(rng, tuple) and rng and rng[0] == "agg" and "Range" in str(rng[1]) and len(rng[2]) == 2:
+                                incl = "RangeInclusive" in str(rng[1])
+                                for (op2, x, y) in (("Le", rng[2][0], a[2][1]), ("Le" if incl else "Lt", a[2][1], rng[2][1])):
+                                    x2, y2 = W.expand(x), W.expand(y)
+                                    x2 = W.subst_fields(x2, selft, fields) if fn.impl_self == HANDLER else x2
+                                    y2 = W.subst_fields(y2, selft, fields) if fn.impl_self == HANDLER else y2
+                                    x2, y2 = bind_from_callers(ctx, W, fn, x2, y2, fields)
+                                    name = classify(W, op2, x2, y2, NEW)
+                                    if name:
+                                        checks.setdefault(name[0], []).append((fn.path, bl.idx, name[1]))
+                            continue
+                        if op not in ("Eq", "Le", "Lt"):
+                            continue
+                        a, b = W.expand(a), W.expand(b)
+                        a2 = W.subst_fields(a, selft, fields) if fn.impl_self == HANDLER else a
+                        b2 = W.subst_fields(b, selft, fields) if fn.impl_self == HANDLER else b
+                        # parameters of helper methods: bind from unique caller
+                        a2, b2 = bind_from_callers(ctx, W, fn, a2, b2, fields)
+                        name = classify(W, op, a2, b2, NEW)
+                        if name:
+                            checks.setdefault(name[0], []).append((fn.path, bl.idx, name[1]))
+    return checks
+
+
 def classify(W, op, a, b, NEW):
     ta, tb = tagpath(W, a), tagpath(W, b)
     if op == "Eq":
@@ -492,11 +522,12 @@ def classify(W, op, a, b, NEW):
         return None
     if ta is None or tb is None:
         return None
-    if op in ("Le",):
+    if op in ("Le", "Lt"):
+        strict = "strict" if op == "Lt" else None
         if ta[1] == ("CERT", "DELE", "MINT") and tb[1] == ("SREP", "MIDP") and ta[0] == tb[0]:
-            return ("mint<=midp", None)
+            return ("mint<=midp", strict)
         if ta[1] == ("SREP", "MIDP") and tb[1] == ("CERT", "DELE", "MAXT") and ta[0] == tb[0]:
-            return ("midp<=maxt", None)
+            return ("midp<=maxt", strict)
     return None
 
 
